@@ -31,6 +31,8 @@ ASSUMPTIONS = [
     "an empty selection (e.g. bins[2:1]) may either raise or give an empty container: a binning "
     "without bins is not representable, the statement does not define it",
     "CorrFunc + CorrFunc with different member sets is not constrained by the statement",
+    "numpy integer indices are exercised for .bins: the data containers accept them explicitly (must work), the "
+    "count containers document int|slice (may refuse with an error, must not answer wrongly)",
 ]
 
 SCALARS = [1, 2, -1, 0.5, 0, np.float64(3.0)]
@@ -167,6 +169,8 @@ def run_case(case):
         perturbed.append(("more-bins", build(case, B=B + 1)))
     if N < 4:
         perturbed.append(("more-patches", build(case, N=N + 1)))
+    if not is_data:
+        perturbed.append(("one-patch", build(case, N=1)))  # numpy would broadcast it silently
     if T in ("NormalisedCounts",):
         perturbed.append(("sumw", build(case, off1=3)))
     if T in ("PatchedCounts", "PatchedSumWeights", "NormalisedCounts"):
@@ -192,6 +196,8 @@ def run_case(case):
                         "an operand was mutated by +")
         for name, p in perturbed:
             if name in ("salt", "auto", "sumw"):
+                continue
+            if is_data and name == "one-patch":
                 continue
             rec.expect_raise("add-incompatible", lambda p=p: x + p, f"operand with different {name}")
         rec.expect_raise("add-incompatible", lambda: x + 1, "x + 1")
@@ -229,7 +235,8 @@ def run_case(case):
         return ints, oor, slices
 
     ints, oor, slices = index_exprs(B)
-    for e in ints + slices:
+    npints = [np.int64(i) for i in ints] + [np.intp(B - 1)]
+    for e in ints + npints + slices:
         idx = np.atleast_1d(np.arange(B)[e])
         label = f".bins[{e!r}]"
         if len(idx) == 0:
@@ -240,6 +247,16 @@ def run_case(case):
                     rec.bad("bins", "wrong-value", f"{label} is an empty selection but has bins")
             except Exception:
                 pass
+            continue
+        if isinstance(e, np.integer) and not is_data:
+            # documented index types are int | slice: a numpy integer may be refused, but not mis-answered
+            rec.nops += 1
+            try:
+                got = x.bins[e]
+            except Exception:
+                continue
+            if not C.snap_equal(C.snap(got), C.sel_bins(sx, idx)):
+                rec.bad("bins", "wrong-value", f"result differs from the numpy reference {label}")
             continue
         got = rec.expect_value("bins", lambda e=e: x.bins[e], C.sel_bins(sx, idx), what=label)
         if got is not None and T in ("PatchedCounts", "PatchedSumWeights", "NormalisedCounts"):
@@ -270,7 +287,7 @@ def run_case(case):
     # ---- patches indexing
     if not is_data:
         ints, oor, slices = index_exprs(N)
-        for e in ints + slices:
+        for e in ints + slices:  # (numpy integers: see ASSUMPTIONS)
             idx = np.atleast_1d(np.arange(N)[e])
             label = f".patches[{e!r}]"
             if len(idx) == 0:
